@@ -13,5 +13,8 @@ func vMkWriter(dst io.Writer, server bool, bufLen int, op ws.OpCode) *Writer {
 	if !server {
 		off = 6
 	}
-	return NewWriterBuffer(dst, vSide(server), op, make([]byte, off+bufLen))
+	// the state as applications hold it: the side bit alone or together with the flags that come
+	// with negotiated extensions / an open fragmented message on the same connection
+	st := vSide(server) | []ws.State{0, ws.StateExtended, ws.StateExtended | ws.StateFragmented}[vChoose("stateflags", 3)]
+	return NewWriterBuffer(dst, st, op, make([]byte, off+bufLen))
 }
